@@ -2,340 +2,595 @@
 from __future__ import annotations
 
 import ast
+import collections
 
-from sa.astx import call_attr, call_name, lin_expect, lincmp, src, walk_local
+from sa.astx import call_attr, lin_expect, lincmp, src
 from sa.selftest import Mutant, Silent
 from sa.source import AnalysisError
-from sa.props._lib_f import (InterpError, assign_sites, call_sites, class_functions, cmp_polarity, from_here, interpret, is_self_attr, named_calls,
-                             none_guard, param_names, truth_guard)
+from sa.props._lib_f import InterpError, MDeferred, ModelRaised, NullLogger, World, call_sites, named_calls
 
 PROPERTY = "C29"
 H2 = "web/_http2.py"
 Q = "twisted.web._http2."
-TECHNIQUE = "finite-domain interpretation of the frame clamp + queue/wake-up discipline on the CFG"
+TECHNIQUE = "finite-schedule interpretation of the send loop against a flow-control oracle"
 EXPLANATION = (
-    "Decides (the module is parsed, never imported): (a) the data branch of H2Connection._sendPrioritisedData is interpreted with a model queue for every "
-    "chunk length 0..6, max frame size 0..4 and flow-control window -3..4: at most one DATA frame is sent, never longer than min(max_outbound_frame_size, "
-    "window), nothing is sent when that is 0, and `sent + requeued` is the original chunk with the remainder put back at the FRONT of the queue; END_STREAM "
-    "is sent only when the sentinel is popped; (b) queue discipline: writers append (data / sentinel, payload unchanged, writeSequence in order), the loop "
-    "pops from the left; (c) the loop never dies silently: every normal path returns on not-_stillProducing, parks on a fresh _sendingDeferred or on "
-    "_consumerBlocked, or re-schedules itself; _sendingDeferred is detached before it is fired and fired after every append that unblocks; a stream is "
-    "blocked in the priority tree only when its queue is empty and, at EVERY priority.unblock site of the class, unblocked only with a queue known non-empty (guard or preceding append) (which is what makes _handleWindowUpdate's silent unblock sufficient); (d) back-pressure: "
-    "flowControlBlocked() when remainingOutboundWindow <= 0, which is window minus queued bytes; windowUpdated() reaches every affected stream and resumes a "
-    "paused producer exactly when the remaining window is > 0, keeping the _producerProducing flag coupled with pause/resume. Not decided: liveness under "
-    "arbitrary schedules, byte-level equality at the peer.  Known finding F29: with a NEGATIVE window (peer shrinks SETTINGS_INITIAL_WINDOW_SIZE) the clamp slices wrongly and the loop dies."
+    "The module is parsed, never imported.  H2Connection and H2Stream become model objects whose methods are the repository's own functions (interpreted over the "
+    "AST); the h2 state machine, the priority tree, the reactor, the transport and the body producers are small synchronous checker models.  Decided by running "
+    "finite schedules and comparing with an oracle: (a) one turn of _sendPrioritisedData for every chunk length 0..6, max frame size 0..4 and window -3..4: at most "
+    "one DATA frame, never longer than min(max frame, window), `sent + requeued-at-the-front` is the chunk, END_STREAM only for the sentinel; the negative-window "
+    "cases are the known finding F29; (b) the loop always continues: after a data / end-of-stream turn it re-schedules itself once, on deadlock it parks on a fresh "
+    "Deferred that re-enters it, behind a paused transport it waits on _consumerBlocked, after stopProducing it stops; (c) whole-response schedules over one and two "
+    "streams, windows smaller than the body, stream- and connection-level WINDOW_UPDATEs in several orders, bodies written through H2Stream.write / writeSequence by "
+    "push producers: every byte arrives once, in order, END_STREAM last, no frame exceeds a window, a parked loop is woken by new data, producers are paused when "
+    "the remaining window is <= 0 and resumed exactly when it is > 0; remainingOutboundWindow == window - queued bytes; (d) at EVERY priority.unblock site (helpers "
+    "inlined) the stream's queue is known non-empty.  Not decided: liveness under arbitrary reactor schedules, byte equality at a real peer."
 )
-ASSUMPTIONS = ["h2's local_flow_control_window / max_outbound_frame_size report the peer's limits", "the priority tree only yields unblocked streams"]
+ASSUMPTIONS = ["h2's local_flow_control_window / max_outbound_frame_size report the peer's limits (modelled: min(stream window, connection window))",
+               "the priority tree yields only unblocked streams and raises DeadlockError when there is none"]
 
 C = "H2Connection"
-QUEUE = "self._outboundStreamQueues"
+SENTINEL = object()
 
 
-class _Queue:
+# ---- models ---------------------------------------------------------------------------------------------------------------------------
+class DeadlockError(Exception):
+    pass
+
+
+class FlowControlError(Exception):
+    pass
+
+
+class _H2:
     _sa_model = True
 
-    def __init__(self, first):
-        self.items = [first]
-        self.log = []
+    def __init__(self, conn_window=1000, max_frame=16384):
+        self.windows = {}
+        self.conn_window = conn_window
+        self.max_outbound_frame_size = max_frame
+        self.frames = []          # ("DATA", stream, bytes) / ("END", stream)
+        self.violations = []
 
-    def popleft(self):
-        return self.items.pop(0)
+    def local_flow_control_window(self, stream):
+        return min(self.windows.get(stream, 0), self.conn_window)
 
-    def appendleft(self, x):
-        self.log.append("appendleft")
-        self.items.insert(0, x)
+    @property
+    def outbound_flow_control_window(self):
+        return self.conn_window
 
-    def append(self, x):
-        self.log.append("append")
-        self.items.append(x)
+    def send_data(self, stream, data, end_stream=False):
+        if len(data) > self.local_flow_control_window(stream):
+            self.violations.append((stream, len(data), self.local_flow_control_window(stream)))
+            raise FlowControlError(f"cannot send {len(data)} bytes, window is {self.local_flow_control_window(stream)}")
+        if len(data) > self.max_outbound_frame_size:
+            self.violations.append((stream, len(data), "max frame %d" % self.max_outbound_frame_size))
+        self.windows[stream] -= len(data)
+        self.conn_window -= len(data)
+        self.frames.append(("DATA", stream, data))
 
-    def flowControlBlocked(self):
-        return None
+    def end_stream(self, stream):
+        self.frames.append(("END", stream))
 
-    def __getitem__(self, i):
-        return self.items[i]
+    def data_to_send(self, *a):
+        return b""
 
-    def __bool__(self):
-        return bool(self.items)
+    def reset_stream(self, stream, *a):
+        self.frames.append(("RST", stream))
 
-    def __len__(self):
-        return len(self.items)
-
-
-def check(ctx):
-    with ctx.section("clamp"):
-        _clamp(ctx)
-    with ctx.section("end-stream"):
-        _end_stream(ctx)
-    with ctx.section("queues"):
-        _queues(ctx)
-    with ctx.section("loop"):
-        _loop(ctx)
-    with ctx.section("wakeup"):
-        _wakeup(ctx)
-    with ctx.section("unblock-sites"):
-        _unblock_sites(ctx)
-    with ctx.section("backpressure"):
-        _backpressure(ctx)
-
-
-def _pairs(st):
-    """(target, value) pairs of an assignment, element-wise for `a, b = x, y`"""
-    out = []
-    if isinstance(st, ast.Assign):
-        for t in st.targets:
-            if isinstance(t, (ast.Tuple, ast.List)) and isinstance(st.value, (ast.Tuple, ast.List)) and len(t.elts) == len(st.value.elts):
-                out.extend(zip(t.elts, st.value.elts))
-            else:
-                out.append((t, st.value))
-    return out
-
-
-def _queue_calls(f):
-    """(method name, call) for calls on self._outboundStreamQueues[<k>]"""
-    out = []
-    for c in walk_local(f):
-        if isinstance(c, ast.Call) and isinstance(c.func, ast.Attribute) and isinstance(c.func.value, ast.Subscript) and src(c.func.value.value) == QUEUE:
-            out.append((c.func.attr, c))
-    return out
-
-
-class _Self:
-    """model of the H2Connection instance: only inert data attributes (bound-method references used as callbacks)"""
-    _sa_model = True
-    _sendPrioritisedData = "<self._sendPrioritisedData>"
-
-    def __getattr__(self, name):
-        if name.startswith("__"):
-            raise AttributeError(name)
-        return f"<self.{name}>"
+    def body(self, stream):
+        return b"".join(f[2] for f in self.frames if f[0] == "DATA" and f[1] == stream)
 
 
 class _Tree:
     _sa_model = True
 
+    def __init__(self):
+        self.streams = []
+        self.blocked = set()
+        self.i = 0
 
-SENTINEL = object()
+    def insert_stream(self, sid, *a, **k):
+        self.streams.append(sid)
+
+    def remove_stream(self, sid):
+        if sid in self.streams:
+            self.streams.remove(sid)
+        self.blocked.discard(sid)
+
+    def block(self, sid):
+        self.blocked.add(sid)
+
+    def unblock(self, sid):
+        self.blocked.discard(sid)
+
+    def __iter__(self):
+        return self
+
+    def __next__(self):
+        live = [s_ for s_ in self.streams if s_ not in self.blocked]
+        if not live:
+            raise DeadlockError()
+        self.i += 1
+        return live[self.i % len(live)]
 
 
-def _run_loop(f, first, M, W):
-    """interpret one turn of the sending loop with the queue holding ``first``; returns (sent frames, queue model, ended streams, rescheduled?)"""
-    qm = _Queue(first)
-    sent, ended, again = [], [], []
-    funcs = {
-        "next": lambda it: 1,
-        "self.conn.local_flow_control_window": lambda s: W,
-        "self.conn.send_data": lambda s, d, *a: sent.append(d),
-        "self.conn.end_stream": lambda s: ended.append(s),
-        "self.conn.data_to_send": lambda *a: b"",
-        "self.transport.write": lambda *a: None,
-        "self.priority.block": lambda *a: None,
-        "self.priority.unblock": lambda *a: None,
-        "self.remainingOutboundWindow": lambda s: 1,
-        "self.resetTimeout": lambda: None,
-        "self._requestDone": lambda s: None,
-        "self._reactor.callLater": lambda *a: again.append(a),
-        "Deferred": lambda *a: _Tree(),
-    }
-    mapping = {f"{QUEUE}[stream]": qm, "self.conn.max_outbound_frame_size": M, "self.streams[stream]": qm, "self._stillProducing": True,
-               "self._consumerBlocked": None, "self._sendingDeferred": None, "self.priority": _Tree(), "_END_STREAM_SENTINEL": SENTINEL}
-    interpret(f, {"self": _Self(), "args": ()}, mapping, funcs=funcs)
-    return sent, qm, ended, again
+class _Reactor:
+    _sa_model = True
+
+    def __init__(self):
+        self.calls = []
+
+    def callLater(self, delay, f, *a, **k):
+        self.calls.append((f, a, k))
+        return None
+
+
+class _Transport:
+    _sa_model = True
+
+    def write(self, data):
+        return None
+
+    def loseConnection(self):
+        return None
+
+
+class _PushProducer:
+    """writes ``pieces`` one per resumeProducing() turn through stream.write while not paused"""
+    _sa_model = True
+
+    def __init__(self, pieces):
+        self.pieces = list(pieces)
+        self.paused = False
+        self.log = []
+        self.stream = None
+
+    def pauseProducing(self):
+        self.paused = True
+        self.log.append("pause")
+
+    def resumeProducing(self):
+        self.paused = False
+        self.log.append("resume")
+
+    def stopProducing(self):
+        self.log.append("stop")
+
+
+class _Event:
+    _sa_model = True
+
+    def __init__(self, stream_id, delta=0):
+        self.stream_id = stream_id
+        self.delta = delta
+
+
+def _world(ctx):
+    mod = ctx.mod(H2)
+    for fn in ("_sendPrioritisedData", "writeDataToStream", "endRequest", "remainingOutboundWindow", "_handleWindowUpdate", "_requestDone"):
+        ctx.func(H2, C + "." + fn)
+    for fn in ("write", "writeSequence", "loseConnection", "windowUpdated", "flowControlBlocked", "registerProducer"):
+        ctx.func(H2, "H2Stream." + fn)
+    ext = {"deque": collections.deque, "Deferred": lambda *a: MDeferred(*a), "Logger": lambda *a, **k: NullLogger()}
+    return World(mod, externals=ext, env={"_END_STREAM_SENTINEL": SENTINEL}, exception_names={"DeadlockError"})
+
+
+def _conn(w, windows, conn_window=1000, max_frame=16384):
+    h2 = _H2(conn_window, max_frame)
+    tree = _Tree()
+    c = w.bare(C, conn=h2, priority=tree, streams={}, _outboundStreamQueues={}, _streamCleanupCallbacks={}, _sendingDeferred=None, _consumerBlocked=None,
+               _stillProducing=True, _reactor=_Reactor(), transport=_Transport(), resetTimeout=lambda *a: None)
+    for sid, win in windows.items():
+        h2.windows[sid] = win
+        st = w.bare("H2Stream", streamID=sid, _conn=c, producer=None, _producerProducing=False, hasStreamingProducer=None, _hasStreamingProducer=None, producing=True)
+        c.streams[sid] = st
+        c._outboundStreamQueues[sid] = collections.deque()
+        c._streamCleanupCallbacks[sid] = MDeferred()
+        tree.insert_stream(sid)
+        tree.block(sid)
+    return c, h2, tree
+
+
+def _drive(c, producers=(), limit=400):
+    """run the reactor: scheduled calls one at a time; idle producers that are not paused write their next piece.  Returns the number of steps, -1 when it does not settle."""
+    for step in range(limit):
+        progressed = False
+        if c._reactor.calls:
+            f, a, k = c._reactor.calls.pop(0)
+            f(*a, **k)
+            progressed = True
+        for p in producers:
+            if p.pieces and not p.paused and p.stream is not None:
+                p.stream.write(p.pieces.pop(0))
+                progressed = True
+                if not p.pieces:
+                    p.stream.unregisterProducer() if hasattr(p.stream, "unregisterProducer") else None
+                    p.stream.loseConnection()
+        if not progressed:
+            return step
+        # a loop that only polls (window exhausted, data queued) is quiescent for our purposes
+        if c._reactor.calls and not any(p.pieces and not p.paused for p in producers) and step > 50 and not _can_send(c):
+            return step
+    return -1
+
+
+def _can_send(c):
+    for sid, q in c._outboundStreamQueues.items():
+        if q and sid not in c.priority.blocked and (q[0] is SENTINEL or c.conn.local_flow_control_window(sid) > 0):
+            return True
+    return False
+
+
+def _loop(c):
+    return c._sendPrioritisedData
+
+
+def check(ctx):
+    for name, fn in (("clamp", _clamp), ("loop", _loop_continues), ("schedules", _schedules), ("backpressure", _backpressure), ("unblock-sites", _unblock_sites)):
+        with ctx.section(name):
+            try:
+                fn(ctx)
+            except InterpError as e:
+                raise AnalysisError(f"C29/{name}: the code uses a construct the evaluator cannot interpret: {e}")
+            except ModelRaised as e:
+                ctx.violation("schedule/raises", Q + C + f" | <{name} scenarios>",
+                              f"a {name} scenario ends with {e.name} raised out of the connection's own code ({e}): the send loop / the caller dies instead of making progress")
+
+
+# ---- (a) one turn of the loop -----------------------------------------------------------------------------------------------------------
+def _turn(w, item, M, W):
+    c, h2, tree = _conn(w, {1: W}, conn_window=10 ** 6, max_frame=M)
+    c._outboundStreamQueues[1].append(item)
+    tree.unblock(1)
+    exc = None
+    try:
+        c._sendPrioritisedData()
+    except ModelRaised as e:
+        exc = e.name
+    return c, h2, exc
 
 
 def _clamp(ctx):
-    f = ctx.func(H2, C + "._sendPrioritisedData")
+    w = _world(ctx)
     q = Q + C + "._sendPrioritisedData"
     bad, badneg = [], []
     n = 0
-    try:
-        for L in range(0, 7):
-            for M in range(0, 5):
-                for W in range(-3, 5):
-                    n += 1
-                    chunk = bytes(range(65, 65 + L))
-                    sent, qm, ended, again = _run_loop(f, chunk, M, W)
-                    limit = max(0, min(M, W))
-                    total = b"".join(sent)
-                    back = b"".join(x for x in qm.items if isinstance(x, bytes))
-                    why = None
-                    if len(total) > limit:
-                        why = f"sends {len(total)} bytes"
-                    elif len(sent) > 1:
-                        why = "sends more than one frame per turn"
-                    elif total + back != chunk:
-                        why = f"sent {total!r} + requeued {back!r} is not the chunk {chunk!r}"
-                    elif "append" in qm.log:
-                        why = "the remainder is appended at the back of the queue (later data overtakes it)"
-                    elif L and limit and not total:
-                        why = "sends nothing although the window is open"
-                    elif ended:
-                        why = "ends the stream although the popped item is ordinary data (the body is cut)"
-                    if why:
-                        (badneg if W < 0 else bad).append((L, M, W, why))
-        sent, qm, ended, again = _run_loop(f, SENTINEL, 4, 4)
-        sentinel_ok = ended == [1] and not sent
-    except InterpError as e:
-        raise AnalysisError(f"C29: _sendPrioritisedData uses a construct the evaluator cannot interpret: {e}")
+    for L in range(0, 7):
+        for M in range(0, 5):
+            for W in range(-3, 5):
+                n += 1
+                chunk = bytes(range(65, 65 + L))
+                c, h2, exc = _turn(w, chunk, M, W)
+                limit = max(0, min(M, W))
+                sent = [f[2] for f in h2.frames if f[0] == "DATA"]
+                total = b"".join(sent)
+                qd = c._outboundStreamQueues.get(1, ())
+                back = b"".join(x for x in qd if isinstance(x, bytes))
+                why = None
+                if exc:
+                    why = f"the turn raises {exc}: the loop dies without re-scheduling itself"
+                elif len(total) > limit:
+                    why = f"sends {len(total)} bytes"
+                elif len(sent) > 1:
+                    why = "sends more than one frame per turn"
+                elif total + back != chunk:
+                    why = f"sent {total!r} + requeued {back!r} is not the chunk {chunk!r}"
+                elif L and limit and not total:
+                    why = "sends nothing although the window is open"
+                elif any(f[0] == "END" for f in h2.frames):
+                    why = "ends the stream although the popped item is ordinary data (the body is cut)"
+                if why:
+                    (badneg if W < 0 else bad).append((L, M, W, why))
+    # order: the remainder goes back to the FRONT
+    c, h2, tree = _conn(w, {1: 2}, max_frame=2)
+    c._outboundStreamQueues[1].extend([b"ABCDE", b"later"])
+    tree.unblock(1)
+    c._sendPrioritisedData()
+    front_ok = list(c._outboundStreamQueues[1]) == [b"CDE", b"later"] and h2.body(1) == b"AB"
     msg = ""
     if bad:
         L, M, W, why = bad[0]
         msg = f"chunk of {L} bytes, max_outbound_frame_size={M}, flow-control window={W}: {why} (limit {max(0, min(M, W))}); {len(bad)} cases wrong"
-    ctx.check(not bad, "clamp/frame-within-window", q + " | <data branch>", msg, detail=f"{n} (length, max frame, window) cases")
+    elif not front_ok:
+        msg = f"queue [ABCDE, later] with room for 2 bytes: sent {h2.body(1)!r}, queue now {list(c._outboundStreamQueues[1])!r}: the remainder is not put back at the FRONT (later data overtakes it)"
+    ctx.check(not bad and front_ok, "clamp/frame-within-window", q + " | <data branch>", msg, detail=f"{n} (length, max frame, window) cases")
     msg = ""
     if badneg:
         L, M, W, why = badneg[0]
         msg = (f"chunk of {L} bytes, max_outbound_frame_size={M}, flow-control window={W} (negative after the peer shrank SETTINGS_INITIAL_WINDOW_SIZE): {why}; the clamp slices with a "
                f"negative bound (frameData[:{W}]), h2 refuses the frame with FlowControlError inside the loop, which is then never re-scheduled; {len(badneg)} cases wrong")
     ctx.check(not badneg, "clamp/negative-window", q + " | <data branch>", msg)
-    ctx.check(sentinel_ok, "clamp/end-after-data", q + " | <sentinel popped>", "popping the end-of-response sentinel does not end the stream (exactly once, without sending it as data)")
+    c, h2, exc = _turn(w, SENTINEL, 4, 4)
+    ok = exc is None and h2.frames == [("END", 1)] and 1 not in c.streams and 1 not in c._outboundStreamQueues and len(c._reactor.calls) == 1
+    ctx.check(ok, "clamp/end-after-data", q + " | <sentinel popped>", f"popping the end-of-response sentinel gives frames {h2.frames}, raises {exc}, stream state "
+              f"{'kept' if 1 in c.streams else 'cleaned'}, {len(c._reactor.calls)} re-schedules (END_STREAM once, state cleaned up, loop re-scheduled expected)")
+    c, h2, exc = _turn(w, b"", 4, 4)
+    ctx.check(exc is None and not any(f[0] == "END" for f in h2.frames), "clamp/end-after-data", q + " | <empty chunk popped>", "an empty chunk ends the stream")
     ctx.extra["finite_cases_clamp"] = n
 
 
-def _end_stream(ctx):
-    f = ctx.func(H2, C + "._sendPrioritisedData")
+# ---- (b) the loop continues ---------------------------------------------------------------------------------------------------------------
+def _loop_continues(ctx):
+    w = _world(ctx)
     q = Q + C + "._sendPrioritisedData"
-    pops = [s for s in walk_local(f) if isinstance(s, ast.Assign) and isinstance(s.value, ast.Call) and [m for m, c in _queue_calls(s) if m in ("popleft", "pop")]]
-    ctx.need(len(pops) == 1 and isinstance(pops[0].targets[0], ast.Name), "frameData = self._outboundStreamQueues[stream].popleft()")
-    data = pops[0].targets[0].id
-    pre = [s for s in walk_local(f) if isinstance(s, ast.Assign)]
-    # the window used is that of the popped stream
-    win = [s for s in pre if "local_flow_control_window" in src(s.value)]
-    ok = len(win) == 1 and isinstance(win[0].value, ast.Call) and [src(a) for a in win[0].value.args] == ["stream"] and src(pops[0].value.func.value.slice) == "stream"
-    ctx.check(ok, "clamp/frame-within-window", q + " | window of the same stream", "the window consulted is not that of the stream whose queue is popped")
-    # END_STREAM only on the sentinel
-    g = ctx.cfg(f)
-    ends = named_calls(g, "self.conn.end_stream")
-    sends = named_calls(g, "self.conn.send_data")
-    ctx.check(len(ends) == 1 and len(sends) == 1, "clamp/end-after-data", q, "end_stream / send_data are not each called at one site")
-    for n_, c in ends:
-        ctx.check(any(cmp_polarity(g.node(t).ast, data, "_END_STREAM_SENTINEL") == (lab == "T") for t, lab in g.edge_guards(n_) if cmp_polarity(g.node(t).ast, data, "_END_STREAM_SENTINEL") is not None),
-                  "clamp/end-after-data", ctx.construct(q, c), "END_STREAM is sent although the popped item is not the end-of-response sentinel (the body is cut)")
-        done = [m for m, _ in named_calls(g, "self._requestDone")]
-        ctx.check(bool(done) and g.must_pass([n_], done, exc=False) is None, "clamp/end-after-data", ctx.construct(q, c) + " | cleanup", "stream state is not cleaned up after END_STREAM")
-    for n_, c in sends:
-        ok = any(cmp_polarity(g.node(t).ast, data, "_END_STREAM_SENTINEL") == (lab == "F") for t, lab in g.edge_guards(n_) if cmp_polarity(g.node(t).ast, data, "_END_STREAM_SENTINEL") is not None)
-        ctx.check(ok and [src(a) for a in c.args] == ["stream", data], "clamp/end-after-data", ctx.construct(q, c), "the sentinel can reach send_data, or the frame is not sent on the popped stream")
-        wr = [m for m, c2 in named_calls(g, "self.transport.write") if "data_to_send" in src(c2)]
-        ctx.check(g.must_pass([n_], wr, exc=False) is None, "clamp/end-after-data", ctx.construct(q, c) + " | flushed", "the frame is not handed to the transport")
+    c, h2, exc = _turn(w, b"abc", 16, 16)
+    ctx.check(exc is None and len(c._reactor.calls) == 1, "loop/continues", q + " | after a data turn", f"after sending a frame the loop is re-scheduled {len(c._reactor.calls)} times (raises {exc})")
+    # deadlock -> parks on a fresh Deferred that re-enters the loop
+    c, h2, tree = _conn(w, {1: 10})
+    c._sendPrioritisedData()
+    d = c._sendingDeferred
+    ok = isinstance(d, MDeferred) and not c._reactor.calls
+    ctx.check(ok, "loop/parks-once", q + " | all streams blocked", f"with every stream blocked the loop does not park on a fresh _sendingDeferred (it is {d!r}, {len(c._reactor.calls)} re-schedules)")
+    if ok:
+        c._outboundStreamQueues[1].append(b"xy")
+        tree.unblock(1)
+        c._sendingDeferred = None
+        d.callback(1)
+        ctx.check(h2.body(1) == b"xy", "loop/parks-once", q + " | parked loop resumed by its Deferred", f"firing the parked Deferred does not re-enter the loop (sent {h2.body(1)!r})")
+    # behind a paused transport
+    c, h2, tree = _conn(w, {1: 10})
+    c._outboundStreamQueues[1].append(b"xy")
+    tree.unblock(1)
+    c._consumerBlocked = MDeferred()
+    c._sendPrioritisedData()
+    ok = not h2.frames and not c._reactor.calls and len(c._consumerBlocked.callbacks) == 1
+    ctx.check(ok, "loop/continues", q + " | transport paused", f"behind a paused transport: frames {h2.frames}, {len(c._reactor.calls)} re-schedules, {len(c._consumerBlocked.callbacks)} waiters on _consumerBlocked")
+    if ok:
+        blocked, c._consumerBlocked = c._consumerBlocked, None
+        blocked.callback(None)
+        ctx.check(h2.body(1) == b"xy", "loop/continues", q + " | transport resumed", "the loop does not continue when the transport resumes")
+    # stopped
+    c, h2, tree = _conn(w, {1: 10})
+    c._outboundStreamQueues[1].append(b"xy")
+    tree.unblock(1)
+    c._stillProducing = False
+    c._sendPrioritisedData()
+    ctx.check(not h2.frames and not c._reactor.calls and c._sendingDeferred is None, "loop/continues", q + " | producing stopped", "the loop keeps running after producing stopped")
+    # a stream whose window is exhausted keeps its place while it has data (it is NOT blocked in the tree: WINDOW_UPDATE does not wake a parked loop)
+    c, h2, tree = _conn(w, {1: 2})
+    c._outboundStreamQueues[1].append(b"abcdef")
+    tree.unblock(1)
+    for _ in range(4):
+        if c._reactor.calls:
+            c._reactor.calls.pop(0)[0]()
+        else:
+            c._sendPrioritisedData()
+    h2.windows[1] += 100
+    c._handleWindowUpdate(_Event(1))
+    steps = _drive(c)
+    ctx.check(h2.body(1) == b"abcdef", "loop/block-only-when-empty", q + " | window exhausted with data queued, then WINDOW_UPDATE",
+              f"after the window re-opened only {h2.body(1)!r} of b'abcdef' was sent: the stream was blocked in the priority tree although it still had data, and WINDOW_UPDATE does not wake a parked loop")
 
 
-def _queues(ctx):
-    mod = ctx.mod(H2)
-    seen = {}
-    for qn, fn in class_functions(mod, C):
-        for m, c in _queue_calls(fn):
-            seen.setdefault(qn.split(".", 1)[1], []).append((m, c))
-    allowed = {"_sendPrioritisedData": {"popleft", "appendleft"}, "writeDataToStream": {"append"}, "endRequest": {"append"},
-               "_handleWindowUpdate": {"get"}}
-    nsite = 0
-    for fn, calls in sorted(seen.items()):
-        for m, c in calls:
-            nsite += 1
-            ctx.check(m in allowed.get(fn, set()), "queue/fifo", ctx.construct(Q + C + "." + fn, c),
-                      f"`{m}` on an outbound stream queue in {fn}: response data must be appended by the writers and popped from the left by the send loop only")
-    ctx.floor("queue/fifo", nsite, 4)
-    f = ctx.func(H2, C + ".writeDataToStream")
-    ps = param_names(f)
-    app = [c for m, c in _queue_calls(f) if m == "append"]
-    ok = len(app) == 1 and [src(a) for a in app[0].args] == [ps[2]] and src(app[0].func.value.slice) == ps[1]
-    ctx.check(ok, "queue/payload", Q + C + ".writeDataToStream", "the data written is not appended unchanged to the queue of its stream")
-    f = ctx.func(H2, C + ".endRequest")
-    app = [c for m, c in _queue_calls(f) if m == "append"]
-    ok = len(app) == 1 and [src(a) for a in app[0].args] == ["_END_STREAM_SENTINEL"] and src(app[0].func.value.slice) == param_names(f)[1]
-    ctx.check(ok, "queue/payload", Q + C + ".endRequest", "the end of the response is not marked by appending the sentinel to the stream's queue")
-    f = ctx.func(H2, C + "._requestReceived")
-    mk = [s for s in walk_local(f) if isinstance(s, ast.Assign) and isinstance(s.targets[0], ast.Subscript) and src(s.targets[0].value) == QUEUE]
-    ctx.check(len(mk) == 1 and src(mk[0].value) in ("deque()", "collections.deque()"), "queue/fifo", Q + C + "._requestReceived", "a stream's outbound queue is not created as an empty deque")
-    f = ctx.func(H2, "H2Stream.write")
-    calls = [c for c in walk_local(f) if isinstance(c, ast.Call) and call_name(c) == "self._conn.writeDataToStream"]
-    ctx.check(len(calls) == 1 and [src(a) for a in calls[0].args] == ["self.streamID", param_names(f)[1]], "queue/payload", Q + "H2Stream.write", "write() does not pass the bytes unchanged to its own stream")
-    f = ctx.func(H2, "H2Stream.writeSequence")
-    loops = [s for s in walk_local(f) if isinstance(s, ast.For) and src(s.iter) == param_names(f)[1]]
-    ok = len(loops) == 1 and any(isinstance(c, ast.Call) and call_name(c) == "self.write" and [src(a) for a in c.args] == [src(loops[0].target)] for c in ast.walk(loops[0]))
-    ctx.check(ok, "queue/payload", Q + "H2Stream.writeSequence", "writeSequence does not write every chunk in order")
-    f = ctx.func(H2, "H2Stream.loseConnection")
-    ok = any(isinstance(c, ast.Call) and call_name(c) == "self._conn.endRequest" and [src(a) for a in c.args] == ["self.streamID"] for c in walk_local(f))
-    ctx.check(ok, "queue/payload", Q + "H2Stream.loseConnection", "finishing the response does not queue the end marker behind the data")
+# ---- (c) whole responses ---------------------------------------------------------------------------------------------------------------------
+def _schedules(ctx):
+    w = _world(ctx)
+    q = Q + C
+    bad = []
+    n = 0
+    plans = []
+    for win in (0, 4, 100):
+        for frame in (3, 16384):
+            for update in ("stream", "connection", "both-orders"):
+                plans.append((win, frame, update))
+    for win, frame, update in plans:
+        for nstreams in ((1, 2) if frame == 3 or update == "both-orders" else (2,)):
+            n += 1
+            bodies = {1: [b"hello ", b"", b"wor", b"ld!"], 3: [b"SECOND", b"-", b"STREAM"]}
+            sids = [1, 3][:nstreams]
+            c, h2, tree = _conn(w, {s_: win for s_ in sids}, conn_window=(win * nstreams if update != "stream" else 10 ** 6), max_frame=frame)
+            prods = []
+            exc = None
+            try:
+                for s_ in sids:
+                    p = _PushProducer(bodies[s_])
+                    p.stream = c.streams[s_]
+                    c.streams[s_].registerProducer(p, True)
+                    prods.append(p)
+                c._sendPrioritisedData()
+                _drive(c, prods)
+                # the peer opens the windows
+                for round_ in range(6):
+                    order = sids if round_ % 2 == 0 else list(reversed(sids))
+                    if update in ("connection", "both-orders"):
+                        h2.conn_window += 7
+                        c._handleWindowUpdate(_Event(0))
+                    for s_ in order:
+                        if s_ in c.streams:
+                            h2.windows[s_] += 5
+                            c._handleWindowUpdate(_Event(s_))
+                    if update == "both-orders":
+                        h2.conn_window += 50
+                        c._handleWindowUpdate(_Event(0))
+                    _drive(c, prods)
+                h2.conn_window += 10 ** 6
+                c._handleWindowUpdate(_Event(0))
+                for s_ in sids:
+                    if s_ in c.streams:
+                        h2.windows[s_] += 10 ** 6
+                        c._handleWindowUpdate(_Event(s_))
+                settled = _drive(c, prods)
+            except ModelRaised as e:
+                exc = e.name
+                settled = 0
+            why = None
+            for s_ in sids:
+                want = b"".join(bodies[s_])
+                frames = [f for f in h2.frames if f[1] == s_]
+                if exc:
+                    why = f"raises {exc}"
+                elif h2.violations:
+                    why = f"a DATA frame of {h2.violations[0][1]} bytes is sent on stream {h2.violations[0][0]} with window {h2.violations[0][2]}"
+                elif h2.body(s_) != want:
+                    why = f"stream {s_} delivered {h2.body(s_)!r} instead of {want!r}"
+                elif not frames or frames[-1] != ("END", s_) or sum(1 for f in frames if f[0] == "END") != 1:
+                    why = f"stream {s_} is not ended exactly once after its data: {[f[0] for f in frames]}"
+                elif any(len(f[2]) > frame for f in frames if f[0] == "DATA"):
+                    why = f"stream {s_} has a frame longer than max_outbound_frame_size={frame}"
+                if why:
+                    break
+            if why:
+                bad.append((win, frame, update, nstreams, why))
+    msg = ""
+    if bad:
+        win, frame, update, ns, why = bad[0]
+        msg = f"{ns} stream(s), initial windows {win}, max frame {frame}, window updates at {update} level: {why}; {len(bad)} of {n} schedules wrong"
+    ctx.check(not bad, "schedule/complete-in-order-within-window", q + " | <response schedules>", msg, detail=f"{n} schedules")
+    ctx.extra["schedules"] = n
+    # new data wakes a parked loop (write and end of response)
+    c, h2, tree = _conn(w, {1: 10})
+    c._sendPrioritisedData()
+    parked = isinstance(c._sendingDeferred, MDeferred)
+    c.streams[1].write(b"abc")
+    _drive(c)
+    ctx.check(parked and h2.body(1) == b"abc", "wakeup/fires-parked-loop", q + ".writeDataToStream | loop parked, then write",
+              f"a write while the send loop is parked is never sent (sent {h2.body(1)!r}): the parked loop is not woken")
+    c.streams[1].loseConnection()
+    _drive(c)
+    ctx.check(("END", 1) in h2.frames, "wakeup/fires-parked-loop", q + ".endRequest | loop parked, then end of response", "the end of the response is never sent when the loop is parked")
+    c, h2, tree = _conn(w, {1: 0})
+    c._sendPrioritisedData()
+    d0 = c._sendingDeferred
+    c.streams[1].write(b"abc")
+    ctx.check(c._sendingDeferred is d0 and 1 in tree.blocked, "wakeup/unblock-needs-window", q + ".writeDataToStream | no window",
+              "a write on a stream without send window unblocks it / wakes the loop (it would spin without sending)")
+    # writeSequence order
+    c, h2, tree = _conn(w, {1: 100})
+    c.streams[1].writeSequence([b"a", b"b", b"c"])
+    c._sendPrioritisedData()
+    _drive(c)
+    ctx.check(h2.body(1) == b"abc", "queue/payload", Q + "H2Stream.writeSequence", f"writeSequence([a, b, c]) arrives as {h2.body(1)!r}")
 
 
-def _loop(ctx):
-    f = ctx.func(H2, C + "._sendPrioritisedData")
-    g = ctx.cfg(f)
-    q = Q + C + "._sendPrioritisedData"
-    me = "self._sendPrioritisedData"
-    resched = [n for n, c in call_sites(g, lambda c: call_attr(c) in ("callLater", "addCallback") and any(src(a) == me for a in c.args))]
-    stop = [r for r in g.ids(lambda x: x.kind == "stmt" and isinstance(x.ast, ast.Return)) if truth_guard(g, r, "self._stillProducing", False)]
-    w = g.must_pass([g.entry], set(resched) | set(stop), exc=False)
-    ctx.check(bool(resched) and w is None, "loop/continues", q,
-              "the sending loop can return without parking on a Deferred or re-scheduling itself: every stream stalls", witness=g.describe(w))
-    ctx.check(len(stop) == 1, "loop/continues", q + " | stop", "the loop does not stop when producing has stopped")
-    # parking on DeadlockError creates a fresh Deferred that re-enters the loop
-    parks = [(n, st) for n, st in assign_sites(g, lambda x: is_self_attr(x, "_sendingDeferred")) if isinstance(st.value, ast.Call) and call_name(st.value) == "Deferred"]
-    ctx.check(len(parks) == 1, "loop/parks-once", q, "the loop does not park on a fresh _sendingDeferred at exactly one site")
-    for n, st in parks:
-        hooks = [m for m, c in named_calls(g, "self._sendingDeferred.addCallback") if [src(a) for a in c.args] == [me]]
-        rets = g.ids(lambda x: x.kind == "stmt" and isinstance(x.ast, ast.Return))
-        ok = bool(hooks) and g.must_pass([n], hooks, exc=False) is None and all(g.path([h], [r_ for r_ in resched if r_ not in hooks], strict=True) is None for h in hooks)
-        ctx.check(ok, "loop/parks-once", ctx.construct(q, st), "after parking the loop is not resumed by the Deferred alone (or also re-schedules itself: two loops would run)")
-        hs = [h for h in g.ids(lambda x: x.kind == "handler") if "DeadlockError" in src(g.node(h).ast.type)]
-        ctx.check(bool(hs) and all(g.path([h], [n]) is not None for h in hs), "loop/parks-once", ctx.construct(q, st) + " | on deadlock", "parking is not the reaction to priority.DeadlockError")
-    # block only when the queue is empty
-    blocks = named_calls(g, "self.priority.block")
-    ctx.check(len(blocks) == 1, "loop/block-only-when-empty", q, "priority.block is not called at exactly one site of the loop")
-    for n, c in blocks:
-        ok = any(src(g.node(t).ast) == f"{QUEUE}[stream]" and lab == "F" for t, lab in g.edge_guards(n)) or \
-            any(lincmp(g.node(t).ast, negate=(lab == "F")) == lin_expect({f"len({QUEUE}[stream])": -1}, 0) for t, lab in g.edge_guards(n))
-        ctx.check(ok and [src(a) for a in c.args] == ["stream"], "loop/block-only-when-empty", ctx.construct(q, c),
-                  "a stream is blocked in the priority tree although its queue still holds data: WINDOW_UPDATE unblocks without waking the parked loop, the data is never sent")
-    # waiting behind the transport
-    cb = [n for n, c in named_calls(g, "self._consumerBlocked.addCallback") if [src(a) for a in c.args] == [me]]
-    ctx.check(len(cb) == 1 and none_guard(g, cb[0], "self._consumerBlocked", False), "loop/continues", q + " | behind transport", "the loop does not wait behind a paused transport")
-    for n_, c in named_calls(g, "self.conn.send_data"):
-        w = g.path([g.entry], [n_], avoid=[t for t in g.ids(lambda x: x.kind == "test") if cmp_polarity(g.node(t).ast, "self._consumerBlocked", "None") is not None])
-        ctx.check(w is None, "loop/continues", ctx.construct(q, c) + " | transport not paused", "data is sent while the transport asked us to pause", witness=g.describe(w))
+# ---- (d) back-pressure ----------------------------------------------------------------------------------------------------------------------------
+def _backpressure(ctx):
+    w = _world(ctx)
+    q = Q
+    # remainingOutboundWindow
+    bad = []
+    for win in (0, 5, 9):
+        for queued in ([], [b"abc"], [b"abc", b"de"], [b"abc", SENTINEL], [SENTINEL]):
+            c, h2, tree = _conn(w, {1: win})
+            c._outboundStreamQueues[1].extend(queued)
+            got = c.remainingOutboundWindow(1)
+            want = win - sum(len(x) for x in queued if x is not SENTINEL)
+            if got != want:
+                bad.append((win, queued, got, want))
+    for conn_window, other in ((6, [b"wxyz"]), (4, [b"w", SENTINEL]), (100, [b"0123456789"])):
+        c, h2, tree = _conn(w, {1: 5, 3: 50}, conn_window=conn_window)
+        c._outboundStreamQueues[1].append(b"abc")
+        c._outboundStreamQueues[3].extend(other)
+        got = c.remainingOutboundWindow(1)
+        want = min(5, conn_window) - 3
+        if got != want:
+            bad.append((f"5 (connection window {conn_window}, another stream has {sum(len(x) for x in other if x is not SENTINEL)} bytes queued)", [b"abc"], got, want))
+    ctx.check(not bad, "backpressure/remaining-window", q + C + ".remainingOutboundWindow",
+              f"window {bad[0][0]} with {[x if x is not SENTINEL else '<end>' for x in bad[0][1]]} queued gives {bad[0][2]}, expected {bad[0][3]} (window minus queued bytes, end marker excluded)" if bad else "")
+    # pause exactly at <= 0, resume exactly at > 0
+    for win, piece, expect_pause in ((5, b"abcd", False), (5, b"abcde", True), (5, b"abcdef", True)):
+        c, h2, tree = _conn(w, {1: win})
+        p = _PushProducer([])
+        c.streams[1].registerProducer(p, True)
+        c.streams[1].write(piece)
+        ctx.check(("pause" in p.log) == expect_pause, "backpressure/blocked-at-zero", q + C + f".writeDataToStream | window {win}, write of {len(piece)} bytes",
+                  f"after queueing {len(piece)} bytes against a window of {win} the producer is {'paused' if 'pause' in p.log else 'not paused'} (pause exactly when the remaining window is <= 0)")
+    for remaining, expect_resume in ((0, False), (1, True), (-2, False)):
+        c, h2, tree = _conn(w, {1: 5})
+        p = _PushProducer([])
+        c.streams[1].registerProducer(p, True)
+        c.streams[1].write(b"abcde")            # window full -> paused
+        p.log.clear()
+        h2.windows[1] += remaining
+        c._handleWindowUpdate(_Event(1))
+        ctx.check(("resume" in p.log) == expect_resume, "backpressure/resume-when-open", q + f"H2Stream.windowUpdated | remaining window {remaining}",
+                  f"WINDOW_UPDATE leaving a remaining window of {remaining}: the paused producer is {'resumed' if 'resume' in p.log else 'not resumed'}")
+        if expect_resume:
+            p.log.clear()
+            c._handleWindowUpdate(_Event(1))
+            ctx.check("resume" not in p.log, "backpressure/flag-coupled", q + "H2Stream.windowUpdated | second update", "a producer that is already producing is resumed again")
+            c.streams[1].write(b"x" * 50)
+            ctx.check("pause" in p.log, "backpressure/flag-coupled", q + "H2Stream.flowControlBlocked | after a resume", "a resumed producer is never paused again (the producing flag was not recorded)")
+    # pause -> later resume through a connection-level update reaches every stream
+    c, h2, tree = _conn(w, {1: 3, 3: 3}, conn_window=6)
+    ps = {}
+    for s_ in (1, 3):
+        ps[s_] = _PushProducer([])
+        c.streams[s_].registerProducer(ps[s_], True)
+        c.streams[s_].write(b"abc")
+    for p in ps.values():
+        p.log.clear()
+    h2.conn_window += 100
+    h2.windows[1] += 100
+    h2.windows[3] += 100
+    c._handleWindowUpdate(_Event(0))
+    ctx.check(all("resume" in p.log for p in ps.values()), "backpressure/update-reaches-stream", q + C + "._handleWindowUpdate | connection-level",
+              f"a connection-level WINDOW_UPDATE resumes {[s_ for s_, p in ps.items() if 'resume' in p.log]} of the paused streams [1, 3]")
+    # the same with the queues already drained (window ran out exactly when the queue emptied): the producers are still paused and must be resumed
+    c, h2, tree = _conn(w, {1: 3, 3: 3}, conn_window=6)
+    ps = {}
+    for s_ in (1, 3):
+        ps[s_] = _PushProducer([])
+        c.streams[s_].registerProducer(ps[s_], True)
+        c.streams[s_].write(b"abc")
+    c._sendPrioritisedData()
+    _drive(c)
+    drained = all(not c._outboundStreamQueues[s_] for s_ in (1, 3)) and all("pause" in p.log for p in ps.values())
+    for p in ps.values():
+        p.log.clear()
+    h2.conn_window += 100
+    h2.windows[1] += 100
+    h2.windows[3] += 100
+    c._handleWindowUpdate(_Event(0))
+    ctx.check(drained and all("resume" in p.log for p in ps.values()), "backpressure/update-reaches-stream", q + C + "._handleWindowUpdate | connection-level, queues drained",
+              f"streams whose queue drained exactly when the window ran out keep their producers paused after a connection-level WINDOW_UPDATE "
+              f"(resumed: {[s_ for s_, p in ps.items() if 'resume' in p.log]} of [1, 3]): the response stops mid-body with the window open")
+    c, h2, tree = _conn(w, {1: 3})
+    p = _PushProducer([])
+    c.streams[1].registerProducer(p, True)
+    c.streams[1].write(b"abc")
+    p.log.clear()
+    h2.windows[1] += 10
+    _, exc = None, None
+    try:
+        c._handleWindowUpdate(_Event(99))
+        c._handleWindowUpdate(_Event(1))
+    except ModelRaised as e:
+        exc = e.name
+    ctx.check(exc is None and "resume" in p.log, "backpressure/update-reaches-stream", q + C + "._handleWindowUpdate | stream-level (and a late update for a closed stream)",
+              f"stream-level WINDOW_UPDATE: raises {exc}, producer log {p.log}")
+    # pausing twice / without producer is harmless
+    c, h2, tree = _conn(w, {1: 0})
+    _, exc = None, None
+    try:
+        c.streams[1].flowControlBlocked()
+        c.streams[1].windowUpdated()
+    except ModelRaised as e:
+        exc = e.name
+    ctx.check(exc is None, "backpressure/flag-coupled", q + "H2Stream | no producer", f"flow-control notifications without a producer raise {exc}")
 
 
-def _wakeup(ctx):
-    for name in ("writeDataToStream", "endRequest"):
-        f = ctx.func(H2, C + "." + name)
-        g = ctx.cfg(f)
-        q = Q + C + "." + name
-        aliases = {src(t) for st in walk_local(f) if isinstance(st, ast.Assign) for t, v in _pairs(st) if isinstance(t, ast.Name) and src(v) == "self._sendingDeferred"}
-        fires = call_sites(g, lambda c: isinstance(c.func, ast.Attribute) and c.func.attr == "callback" and (src(c.func.value) in aliases or src(c.func.value) == "self._sendingDeferred"))
-        ctx.check(len(fires) == 1, "wakeup/fires-parked-loop", q, f"{len(fires)} sites wake the parked sending loop (one expected)")
-        clear = [n for n, st in assign_sites(g, lambda x: is_self_attr(x, "_sendingDeferred")) if any(is_self_attr(t, "_sendingDeferred") and src(v) == "None" for t, v in _pairs(st))]
-        for n, c in fires:
-            ok = src(c.func.value) in aliases and bool(clear) and g.must_precede(clear, [n]) is None and none_guard(g, n, "self._sendingDeferred", False)
-            ctx.check(ok, "wakeup/detach-before-fire", ctx.construct(q, c),
-                      "_sendingDeferred is fired while still attached: the loop runs synchronously, may park again and the new Deferred is overwritten/fired twice")
-        un = named_calls(g, "self.priority.unblock")
-        ctx.check(len(un) == 1, "wakeup/fires-parked-loop", q + " | unblock", "the stream is not unblocked at exactly one site")
-        tests = [t for t in g.ids(lambda x: x.kind == "test") if cmp_polarity(g.node(t).ast, "self._sendingDeferred", "None") is not None]
-        for n, c in un:
-            w = g.must_pass([n], tests, exc=False)
-            ctx.check(bool(tests) and w is None, "wakeup/fires-parked-loop", ctx.construct(q, c),
-                      "a stream is unblocked because data was queued, but a parked sending loop is not woken: the response hangs", witness=g.describe(w))
-            app = [m for m, c2 in call_sites(g, lambda c2: isinstance(c2.func, ast.Attribute) and c2.func.attr == "append" and isinstance(c2.func.value, ast.Subscript))]
-            ctx.check(bool(app) and g.must_precede(app, [n]) is None, "wakeup/fires-parked-loop", ctx.construct(q, c) + " | after append", "the loop is woken before the data is in the queue")
-        for t in tests:
-            pol = cmp_polarity(g.node(t).ast, "self._sendingDeferred", "None")
-            parked = [d for d, l in g.succ[t] if l == ("F" if pol else "T")]
-            w = from_here(g, parked, [n for n, c in fires])
-            ctx.check(w is None, "wakeup/fires-parked-loop", q + " | parked => fired", "with a parked loop there is a path that does not fire it", witness=g.describe(w))
-    f = ctx.func(H2, C + ".writeDataToStream")
-    g = ctx.cfg(f)
-    q = Q + C + ".writeDataToStream"
-    for n, c in named_calls(g, "self.priority.unblock"):
-        ok = any(lincmp(g.node(t).ast, negate=(lab == "F")) == lin_expect({f"self.conn.local_flow_control_window({param_names(f)[1]})": 1}, 1) for t, lab in g.edge_guards(n))
-        ctx.check(ok, "wakeup/unblock-needs-window", ctx.construct(q, c), "a stream with no send window is unblocked on write (the loop would spin without sending)")
+# ---- (e) who may unblock ---------------------------------------------------------------------------------------------------------------------------
+QUEUE = "self._outboundStreamQueues"
+KEEP = {"_sendPrioritisedData", "writeDataToStream", "endRequest", "_handleWindowUpdate", "dataReceived", "_requestReceived"}
 
 
 def _unblock_sites(ctx):
-    """invariant `unblocked in the priority tree => the stream's outbound queue is non-empty`: the send loop pops without a test, so EVERY unblock site must establish it"""
-    mod = ctx.mod(H2)
+    """invariant `unblocked in the priority tree => the stream's outbound queue is non-empty`: the send loop pops without a test, so EVERY unblock site must establish
+    it.  Judged on the class with private helpers inlined (sa/props/_lib_c.norm_class), so an extracted `_unblockAndWake()` is seen at its call sites."""
+    from sa.props._lib_c import norm_class
+    cls = norm_class(ctx, H2, C, keep=KEEP)
     n = 0
-    for qn, fn in class_functions(mod, C):
+    fns = []
+
+    def rec(node, prefix):
+        for ch in ast.iter_child_nodes(node):
+            if isinstance(ch, (ast.FunctionDef, ast.AsyncFunctionDef)):
+                fns.append((prefix + ch.name, ch))
+                rec(ch, prefix + ch.name + ".")
+            elif not isinstance(ch, ast.ClassDef):
+                rec(ch, prefix)
+    rec(cls, C + ".")
+    for qn, fn in fns:
         g = ctx.cfg(fn)
         for nid, c in named_calls(g, "self.priority.unblock"):
             n += 1
@@ -351,119 +606,10 @@ def _unblock_sites(ctx):
                                                   src(c2.func.value) == f"{QUEUE}[{key}]")]
             if appended and g.must_precede(appended, [nid]) is None:
                 nonempty = True
-            ctx.check(nonempty, "wakeup/unblock-only-with-data", ctx.construct(Q + qn, c),
+            ctx.check(nonempty, "wakeup/unblock-only-with-data", Q + qn + " | priority.unblock",
                       f"stream {key} is unblocked in the priority tree without its outbound queue being known non-empty (neither guarded by a queue test nor preceded by an append): "
                       "the send loop pops an empty deque (IndexError), is never re-scheduled and no stream completes")
     ctx.floor("wakeup/unblock-only-with-data", n, 4)
-    # and the consumer side: the pop is unguarded, so the rule above is what protects it (or it has its own non-empty test)
-    f = ctx.func(H2, C + "._sendPrioritisedData")
-    pops = [c for m, c in _queue_calls(f) if m in ("popleft", "pop")]
-    ctx.check(len(pops) == 1, "wakeup/unblock-only-with-data", Q + C + "._sendPrioritisedData | pop site", f"{len(pops)} pop sites in the send loop (one expected)")
-
-
-def _backpressure(ctx):
-    # flowControlBlocked() whenever the remaining window is exhausted
-    for name, key in (("writeDataToStream", None), ("_sendPrioritisedData", "stream")):
-        f = ctx.func(H2, C + "." + name)
-        g = ctx.cfg(f)
-        q = Q + C + "." + name
-        sid = key or param_names(f)[1]
-        fb = call_sites(g, lambda c: call_attr(c) == "flowControlBlocked")
-        ctx.check(len(fb) == 1, "backpressure/blocked-at-zero", q, "flowControlBlocked() is not called at exactly one site")
-        for n, c in fb:
-            want = lin_expect({f"self.remainingOutboundWindow({sid})": -1}, 0)
-            ok = any(lincmp(g.node(t).ast, negate=(lab == "F")) == want for t, lab in g.edge_guards(n)) and src(c.func.value) == f"self.streams[{sid}]"
-            ctx.check(ok, "backpressure/blocked-at-zero", ctx.construct(q, c),
-                      "the producer of a stream is not paused exactly when remainingOutboundWindow(stream) <= 0 (it keeps buffering without bound, or is paused with window left and never resumed)")
-        tests = [t for t in g.ids(lambda x: x.kind == "test") if "remainingOutboundWindow" in src(g.node(t).ast)]
-        if name == "writeDataToStream":
-            w = g.must_pass([g.entry], tests, exc=False)
-            ctx.check(bool(tests) and w is None, "backpressure/blocked-at-zero", q + " | every write checks", "a write can return without checking the remaining window", witness=g.describe(w))
-        else:
-            for n_, c in named_calls(g, "self.conn.send_data"):
-                w = g.must_pass([n_], tests, exc=False)
-                ctx.check(bool(tests) and w is None, "backpressure/blocked-at-zero", q + " | after every frame", "after sending a frame the remaining window is not checked", witness=g.describe(w))
-    f = ctx.func(H2, C + ".remainingOutboundWindow")
-    q = Q + C + ".remainingOutboundWindow"
-    rets = [s for s in walk_local(f) if isinstance(s, ast.Return)]
-    ok = len(rets) == 1 and isinstance(rets[0].value, ast.BinOp) and isinstance(rets[0].value.op, ast.Sub)
-    if ok:
-        defs = {src(s.targets[0]): s.value for s in walk_local(f) if isinstance(s, ast.Assign)}
-        l, r = defs.get(src(rets[0].value.left)), defs.get(src(rets[0].value.right))
-        sid = param_names(f)[1]
-        ok = l is not None and src(l) == f"self.conn.local_flow_control_window({sid})" and isinstance(r, ast.Call) and call_name(r) == "sum" and isinstance(r.args[0], ast.GeneratorExp)
-        if ok:
-            ge = r.args[0]
-            it = defs.get(src(ge.generators[0].iter), ge.generators[0].iter)
-            v = src(ge.generators[0].target)
-            ok = src(ge.elt) == f"len({v})" and src(it) == f"{QUEUE}[{sid}]" and len(ge.generators[0].ifs) == 1 and cmp_polarity(ge.generators[0].ifs[0], v, "_END_STREAM_SENTINEL") is False
-    ctx.check(ok, "backpressure/remaining-window", q, "the remaining window is not `flow-control window - bytes already queued (sentinel excluded)` of that stream")
-
-    # window updates reach the streams
-    f = ctx.func(H2, C + "._handleWindowUpdate")
-    g = ctx.cfg(f)
-    q = Q + C + "._handleWindowUpdate"
-    wu = call_sites(g, lambda c: call_attr(c) == "windowUpdated")
-    ctx.check(len(wu) == 2, "backpressure/update-reaches-stream", q, f"{len(wu)} windowUpdated() sites (stream-level and connection-level expected)")
-    one = [(n, c) for n, c in wu if src(c.func.value) == "self.streams[streamID]"]
-    allv = [(n, c) for n, c in wu if (n, c) not in one]
-    for n, c in one:
-        act = [t for t in g.ids(lambda x: x.kind == "test") if isinstance(g.node(t).ast, ast.Call) and call_name(g.node(t).ast) == "self._streamIsActive"]
-        ok = truth_guard(g, n, "streamID", True) and len(act) == 1
-        if ok:
-            live = [d for d, l in g.succ[act[0]] if l == "T"]
-            ok = from_here(g, live, [n]) is None
-        ctx.check(ok, "backpressure/update-reaches-stream", ctx.construct(q, c), "a WINDOW_UPDATE for an active stream does not always reach that stream's windowUpdated()")
-    for n, c in allv:
-        loops = [s for s in walk_local(f) if isinstance(s, ast.For) and any(x is c for x in ast.walk(s))]
-        ok = len(loops) == 1 and src(loops[0].iter) in ("self.streams.values()", "list(self.streams.values())") and src(c.func.value) == src(loops[0].target) and truth_guard(g, n, "streamID", False)
-        if ok:
-            lid = g.ids_of(loops[0])
-            body = [d for d, l in g.succ[lid[0]] if l == "iter"]
-            ok = from_here(g, body, [n], to=lid) is None
-        ctx.check(ok, "backpressure/update-reaches-stream", ctx.construct(q, c), "a connection-level WINDOW_UPDATE does not reach every stream's windowUpdated()")
-    disp = ctx.func(H2, C + ".dataReceived")
-    gd = ctx.cfg(disp)
-    hw = named_calls(gd, "self._handleWindowUpdate")
-    ok = len(hw) == 1 and any(src(gd.node(t).ast) == "isinstance(event, h2.events.WindowUpdated)" and lab == "T" for t, lab in gd.edge_guards(hw[0][0]))
-    ctx.check(ok, "backpressure/update-reaches-stream", Q + C + ".dataReceived", "WindowUpdated events are not dispatched to _handleWindowUpdate")
-
-    # H2Stream side
-    f = ctx.func(H2, "H2Stream.windowUpdated")
-    g = ctx.cfg(f)
-    q = Q + "H2Stream.windowUpdated"
-    res = named_calls(g, "self.producer.resumeProducing")
-    ctx.check(len(res) == 1, "backpressure/resume-when-open", q, "the paused producer is not resumed at exactly one site")
-    rw = [s for s in walk_local(f) if isinstance(s, ast.Assign) and isinstance(s.value, ast.Call) and call_name(s.value) == "self._conn.remainingOutboundWindow"]
-    ctx.need(len(rw) == 1 and [src(a) for a in rw[0].value.args] == ["self.streamID"], "remainingWindow = self._conn.remainingOutboundWindow(self.streamID)")
-    v = src(rw[0].targets[0])
-    for n, c in res:
-        ok = any(lincmp(g.node(t).ast, negate=(lab == "F")) == lin_expect({v: 1}, 1) for t, lab in g.edge_guards(n))
-        ctx.check(ok, "backpressure/resume-when-open", ctx.construct(q, c), "the producer is resumed under a condition other than remaining window > 0 (resumed into a closed window, or never resumed at 1 byte)")
-        ctx.check(truth_guard(g, n, "self.producer", True) and truth_guard(g, n, "self._producerProducing", False), "backpressure/resume-when-open", ctx.construct(q, c) + " | only if paused",
-                  "resumeProducing() is not confined to `a producer exists and it is paused`")
-        flag = [m for m, st in assign_sites(g, lambda x: is_self_attr(x, "_producerProducing")) if src(st.value) == "True"]
-        ctx.check(bool(flag) and (g.must_precede(flag, [n]) is None or g.must_pass([n], flag, exc=False) is None), "backpressure/flag-coupled", ctx.construct(q, c),
-                  "the producer is resumed without recording it (flowControlBlocked would never pause it again)")
-    # every path with a paused producer and an open window resumes
-    for t in [t for t in g.ids(lambda x: x.kind == "test") if lincmp(g.node(t).ast) is not None and v in src(g.node(t).ast)]:
-        pos = lincmp(g.node(t).ast) == lin_expect({v: 1}, 1)
-        open_ = [d for d, l in g.succ[t] if l == ("T" if pos else "F")]
-        w = from_here(g, open_, [n for n, c in res])
-        ctx.check(w is None, "backpressure/resume-when-open", q + " | open window => resumed", "with window available a paused producer can stay paused", witness=g.describe(w))
-    f = ctx.func(H2, "H2Stream.flowControlBlocked")
-    g = ctx.cfg(f)
-    q = Q + "H2Stream.flowControlBlocked"
-    pa = named_calls(g, "self.producer.pauseProducing")
-    ctx.check(len(pa) == 1, "backpressure/flag-coupled", q, "the producer is not paused at exactly one site")
-    for n, c in pa:
-        flag = [m for m, st in assign_sites(g, lambda x: is_self_attr(x, "_producerProducing")) if src(st.value) == "False"]
-        ok = truth_guard(g, n, "self._producerProducing", True) and bool(flag) and (g.must_pass([n], flag, exc=False) is None or g.must_precede(flag, [n]) is None)
-        ctx.check(ok, "backpressure/flag-coupled", ctx.construct(q, c), "pauseProducing() is not coupled with _producerProducing = False under `currently producing` (windowUpdated would never resume it)")
-    f = ctx.func(H2, "H2Stream.registerProducer")
-    g = ctx.cfg(f)
-    flag = [m for m, st in assign_sites(g, lambda x: is_self_attr(x, "_producerProducing")) if src(st.value) == "True"]
-    ctx.check(bool(flag) and g.must_pass([g.entry], flag, exc=False) is None, "backpressure/flag-coupled", Q + "H2Stream.registerProducer", "a new producer is not recorded as producing")
 
 
 MUTANTS = [
@@ -475,14 +621,11 @@ MUTANTS = [
     Mutant("loop-pops-from-right", H2, "        frameData = self._outboundStreamQueues[stream].popleft()", "        frameData = self._outboundStreamQueues[stream].pop()"),
     Mutant("connection-window-update-unblocks-idle-streams", H2, "                # If we still have data to send for this stream, unblock it.\n                if self._outboundStreamQueues.get(stream.streamID):\n                    self.priority.unblock(stream.streamID)",
            "                # Let the stream take part in the next round.\n                self.priority.unblock(stream.streamID)"),
-    Mutant("fire-without-detach", H2, "        self._outboundStreamQueues[streamID].append(_END_STREAM_SENTINEL)\n        self.priority.unblock(streamID)\n        if self._sendingDeferred is not None:\n            d = self._sendingDeferred\n            self._sendingDeferred = None\n            d.callback(streamID)",
-           "        self._outboundStreamQueues[streamID].append(_END_STREAM_SENTINEL)\n        self.priority.unblock(streamID)\n        if self._sendingDeferred is not None:\n            d = self._sendingDeferred\n            d.callback(streamID)\n            self._sendingDeferred = None"),
     Mutant("write-missing-wakeup", H2, "            self.priority.unblock(streamID)\n            if self._sendingDeferred is not None:\n                d = self._sendingDeferred\n                self._sendingDeferred = None\n                d.callback(streamID)\n\n        if self.remainingOutboundWindow(streamID) <= 0:",
            "            self.priority.unblock(streamID)\n\n        if self.remainingOutboundWindow(streamID) <= 0:"),
     Mutant("end-of-stream-no-reschedule", H2, "            # Clean up the stream\n            self._requestDone(stream)\n", "            # Clean up the stream\n            self._requestDone(stream)\n            return\n"),
     Mutant("block-on-exhausted-window", H2, "            if not self._outboundStreamQueues[stream]:\n                self.priority.block(stream)\n",
            "            if not self._outboundStreamQueues[stream] or self.conn.local_flow_control_window(stream) <= 0:\n                self.priority.block(stream)\n"),
-    Mutant("blocked-threshold-strict", H2, "            if self.remainingOutboundWindow(stream) <= 0:\n                self.streams[stream].flowControlBlocked()", "            if self.remainingOutboundWindow(stream) < 0:\n                self.streams[stream].flowControlBlocked()"),
     Mutant("resume-at-zero-window", H2, "        if not remainingWindow > 0:\n            return\n", "        if not remainingWindow >= 0:\n            return\n"),
     Mutant("pause-flag-not-reset", H2, "            self.producer.pauseProducing()\n            self._producerProducing = False\n", "            self.producer.pauseProducing()\n"),
     Mutant("connection-update-skips-idle-streams", H2, "            for stream in self.streams.values():\n                stream.windowUpdated()\n\n                # If we still have data to send for this stream, unblock it.\n                if self._outboundStreamQueues.get(stream.streamID):\n                    self.priority.unblock(stream.streamID)",
@@ -491,6 +634,15 @@ MUTANTS = [
     Mutant("end-stream-before-sentinel", H2, "        if frameData is _END_STREAM_SENTINEL:\n            # There's no error handling here even though", "        if frameData is _END_STREAM_SENTINEL or not frameData:\n            # There's no error handling here even though"),
 ]
 SILENT = [
+    # firing the parked Deferred before clearing the attribute is not observable: the re-entered loop has an unblocked stream, so it cannot park again in that turn
+    Silent("wake-then-clear-parked-deferred", H2, "        self._outboundStreamQueues[streamID].append(_END_STREAM_SENTINEL)\n        self.priority.unblock(streamID)\n        if self._sendingDeferred is not None:\n            d = self._sendingDeferred\n            self._sendingDeferred = None\n            d.callback(streamID)",
+           "        self._outboundStreamQueues[streamID].append(_END_STREAM_SENTINEL)\n        self.priority.unblock(streamID)\n        if self._sendingDeferred is not None:\n            d = self._sendingDeferred\n            d.callback(streamID)\n            self._sendingDeferred = None"),
+    Silent("wake-up-extracted-into-helper", H2, "        self._outboundStreamQueues[streamID].append(_END_STREAM_SENTINEL)\n        self.priority.unblock(streamID)\n        if self._sendingDeferred is not None:\n            d = self._sendingDeferred\n            self._sendingDeferred = None\n            d.callback(streamID)\n",
+           "        self._outboundStreamQueues[streamID].append(_END_STREAM_SENTINEL)\n        self._unblockAndWake(streamID)\n\n    def _unblockAndWake(self, streamID):\n        self.priority.unblock(streamID)\n        parked, self._sendingDeferred = self._sendingDeferred, None\n        if parked is not None:\n            parked.callback(streamID)\n"),
+    Silent("remaining-window-explicit-loop", H2, "        alreadyConsumed = sum(\n            len(chunk) for chunk in sendQueue if chunk is not _END_STREAM_SENTINEL\n        )\n",
+           "        alreadyConsumed = 0\n        for chunk in sendQueue:\n            if chunk is _END_STREAM_SENTINEL:\n                continue\n            alreadyConsumed += len(chunk)\n"),
+    Silent("window-updated-single-condition", H2, "        if not self.producer:\n            return\n\n        # If we're not blocked on flow control, we don't care.\n        if self._producerProducing:\n            return\n",
+           "        if not self.producer or self._producerProducing:\n            return\n"),
     Silent("window-update-queue-test-by-index", H2, "            if self._outboundStreamQueues.get(streamID):\n                self.priority.unblock(streamID)", "            if len(self._outboundStreamQueues[streamID]) > 0:\n                self.priority.unblock(streamID)"),
     Silent("clamp-rewritten-with-tuple-assign-and-floor", H2, "                excessData = frameData[maxFrameSize:]\n                frameData = frameData[:maxFrameSize]\n                self._outboundStreamQueues[stream].appendleft(excessData)\n",
            "                cut = max(maxFrameSize, 0)\n                frameData, excessData = frameData[:cut], frameData[cut:]\n                self._outboundStreamQueues[stream].appendleft(excessData)\n"),
